@@ -86,6 +86,10 @@ func (s Seg) appendTo(out []byte) []byte {
 		for i := range pat {
 			pat[i] = byte(x.next() >> 24)
 		}
+		if len(s.Raw) > 0 {
+			// an explicit period
+			pat, p = s.Raw, len(s.Raw)
+		}
 		for i := 0; i < n; i++ {
 			out = append(out, pat[i%p])
 		}
@@ -251,6 +255,35 @@ func (s Seg) appendTo(out []byte) []byte {
 		for i := 0; i < n; i++ {
 			out = append(out, byte(i+s.A))
 		}
+	case "domlit":
+		// "F r F r ...": r random, F a dominant byte (1-bit code) or, one time in A, a second byte; no
+		// 4-byte substring repeats (literal tokens only); clusters of 3..5 F bytes sprinkled in, which
+		// the scalar tail of the match finder turns into runs of single-literal tokens of 1..5 bits
+		zOneIn := uint64(s.A)
+		if zOneIn < 2 {
+			zOneIn = 8
+		}
+		f := func() byte {
+			if x.next()%zOneIn == 0 {
+				return 'Z'
+			}
+			return 'X'
+		}
+		start := len(out)
+		for len(out)-start < n {
+			if x.next()%32 < 2 {
+				for k, m := 0, 3+int(x.next()%3); k < m; k++ {
+					out = append(out, f())
+				}
+			}
+			out = append(out, f())
+			r := byte(x.next() >> 24)
+			for r == 'X' || r == 'Z' {
+				r = byte(x.next() >> 24)
+			}
+			out = append(out, r)
+		}
+		out = out[:start+n]
 	default: // "rand": uniform over an alphabet of size A (0/256 = all bytes)
 		a := uint64(s.A)
 		if a == 0 || a > 256 {
@@ -300,7 +333,7 @@ func DrawLen(t *rapid.T, label string, max int) int {
 
 // DrawSeg draws one segment of about n bytes.
 func DrawSeg(t *rapid.T, n int) Seg {
-	kinds := []string{"rand", "rand", "text", "text", "run", "period", "repeat", "repeat", "fib", "near", "inc", "farmix", "interleave", "ladder"}
+	kinds := []string{"rand", "rand", "text", "text", "run", "period", "repeat", "repeat", "fib", "near", "inc", "farmix", "interleave", "ladder", "domlit"}
 	k := rapid.SampledFrom(kinds).Draw(t, "kind")
 	s := Seg{Kind: k, N: n, Seed: rapid.Uint64Range(0, 1<<20).Draw(t, "seed")}
 	switch k {
@@ -326,6 +359,8 @@ func DrawSeg(t *rapid.T, n int) Seg {
 		s.A = rapid.SampledFrom([]int{0, 0, 32, 255}).Draw(t, "const")
 	case "farmix":
 		s.A = rapid.SampledFrom([]int{4096, 32768, 32768, 20000}).Draw(t, "maxdist")
+	case "domlit":
+		s.A = rapid.SampledFrom([]int{4, 8, 8, 16}).Draw(t, "zonein")
 	case "fib":
 		s.A = rapid.IntRange(2, 30).Draw(t, "nsym")
 	case "inc":
